@@ -376,7 +376,7 @@ pub fn arb_zone(cfg: ZoneCfg) -> SBoxedStrategy<MZone> {
                 MTrailer::None => {}
             }
             let mut trans: Vec<(i64, usize)> = vec![];
-            if want_table && !(rule_zone && !cr.class.interleaves()) {
+            if want_table && !(rule_zone && !cr.class.interleaves() && crate::search::overlap_listed_as_known()) {
                 let limit = if rule_zone { 60_000_000_000_000_000i64 } else { i64::MAX };
                 let mut t = if rule_zone { t0.clamp(-limit, limit) } else { t0 };
                 for (k, (gap, ti)) in raw.iter().enumerate() {
